@@ -207,6 +207,36 @@ def c06(tier):
         v.cov["parts"][name + ":graph"] = {"states": ns, "edges": ne}
         v.cov["distinct_nontrivial"] += ne
         graph_walks(v, "topics", gpath, modes, ["-maxqos", str(consts["maxqos"])])
+    # part 2b: linearizability under concurrency (direction B): goroutines hammer one real store, TLC places the
+    # unlogged linearization points
+    ntr = 60 if not thorough else 600
+    tmp = tempfile.mkdtemp(prefix="verif-c06-")
+    try:
+        tf = os.path.join(tmp, "trace.ndjson")
+        p = core.run_harness(["topicslin", "-seed", str(core.seed()), "-traces", str(ntr), "-out", tf], timeout=600)
+        if p.returncode != 0:
+            err = p.stderr or ""
+            if ("panic:" in err or "fatal error:" in err) and "go-mqtt/topics" in err:
+                v.mismatch({"what": "the topic store crashed under concurrent use: %s" % " | ".join([l for l in err.splitlines() if l.strip()][:3])[:400],
+                            "replay": {"seed": core.seed()}})
+                text = ""
+            else:
+                raise Infra("topicslin failed: %s" % err[-1500:])
+        else:
+            text = open(tf).read()
+    finally:
+        import shutil
+        shutil.rmtree(tmp, ignore_errors=True)
+    if text:
+        cfg = "SPECIFICATION Spec\nCONSTANTS MixedLevels = {}\nCONSTRAINT HighWater\nPOSTCONDITION Accepted\n"
+        ok, matched, reports, why = validate_trace(v, "TopicsLinTrace", cfg, text, "TopicsLinTrace", "topic store", dfs=True)
+        lines = text.splitlines()
+        v.cov["parts"]["linearizability(recorded)"] = {"traces": ntr, "events": len(lines), "accepted": ok}
+        v.cov["traces_validated_against_impl"] += ntr
+        v.cov["evaluations"] += len(lines)
+        if not ok:
+            v.mismatch({"what": "a recorded concurrent history of the topic store is not linearizable with respect to the Topics specification (%s)" % why,
+                        "replay": {"seed": core.seed(), "traces": ntr, "first_events": lines[:6]}})
     # part 3: long random histories over a large vocabulary (TLC simulation)
     nsim, depth = (20, 60) if not thorough else (200, 80)   # per worker, 8 workers
     for maxqos in (2, 1):
@@ -266,7 +296,7 @@ ACKQ_TRACE_CONSTS = dict(ids="{}", ackids="{}", kinds='{"pub1","pub2","sub","uns
                          maxlen=1000000)
 
 
-def validate_trace(v, module, cfg, trace_text, label, what, timeout=900, dfs=False):
+def validate_trace(v, module, cfg, trace_text, label, what, timeout=900, dfs=False, highwater=False):
     """Direction B: TLC decides whether the recorded trace is a behaviour of the trace specification.
     Returns (accepted, matched_prefix_length, report records)."""
     nev = trace_text.count("\n")
@@ -279,7 +309,11 @@ def validate_trace(v, module, cfg, trace_text, label, what, timeout=900, dfs=Fal
         # either the trace could not be continued (postcondition) or an invariant of the specification
         # failed on a recorded execution (every invariant is evaluated at every step of the trace):
         # both are observations about the real code
-        return False, r.depth, reports, r.violation
+        depth = r.depth
+        if highwater:
+            hw = [x for x in core.behaviours(r.lines) if isinstance(x, dict) and "highwater" in x]
+            depth = hw[-1]["highwater"] if hw else 0
+        return False, depth, reports, r.violation
     return True, nev, reports, None
 
 
@@ -621,7 +655,7 @@ CONSTANTS
  NoCid = NoCid
  Conns = {c1, c2}
  Locals = {L1}
- Cids = {k1, k2}
+ Cids = %(cids)s
  MaxQos = %(maxqos)d
  MixedLevels = {"a+"}
  MaxSteps = %(depth)d
@@ -634,7 +668,7 @@ PROPERTIES StepProps
 def broker_behaviours(v, spec, depth, mode="cover", maxqos=2):
     """Behaviours of one Broker configuration: transition cover (one witness per transition of the
     abstract state graph within depth steps; maximal witnesses are replayed) or all paths of that depth."""
-    cfg = BROKER_CFG % dict(spec=spec, depth=depth, maxqos=maxqos, emit="Emit" if mode == "cover" else "EmitFull",
+    cfg = BROKER_CFG % dict(spec=spec, depth=depth, maxqos=maxqos, cids="{k1, k2, k3}" if spec == "FormSpec" else "{k1, k2}", emit="Emit" if mode == "cover" else "EmitFull",
                             view="VIEW CoverView" if mode == "cover" else "")
     r = core.cached_tlc("broker-%s-%s-%d-%d" % (spec, mode, depth, maxqos), "MCBroker", cfg, workers=1, timeout=1500)
     v.tlc("%s(%s, depth %d)" % (spec, mode, depth), r)
@@ -759,7 +793,7 @@ def c10(tier):
 
 @check("C11")
 def c11(tier):
-    return broker_check("C11", tier, [("AdmitSpec", "cover", 4, 5, "mockSuccess"), ("AdmitSpec", "paths", 2, 3, "mockSuccess"), ("AuthSpec", "cover", 3, 3, "mockFailure"), ("SelSpec", "cover", 6, 7, "verifSelective")], {"C11", "C01", "C10", "C07"},
+    return broker_check("C11", tier, [("AdmitSpec", "cover", 4, 5, "mockSuccess"), ("AdmitSpec", "paths", 2, 3, "mockSuccess"), ("FormSpec", "cover", 4, 5, "mockSuccess"), ("FormSpec", "paths", 2, 3, "mockSuccess"), ("AuthSpec", "cover", 3, 3, "mockFailure"), ("SelSpec", "cover", 6, 7, "verifSelective")], {"C11", "C01", "C10", "C07"},
                         "configuration admit: 14 kinds of refused first packets (unsupported level, name mismatch, client id too long / unprintable / empty with "
                         "CleanSession 0, reserved flag, will flags, other packet types, truncated CONNECT, garbage, bad fixed-header flags) with follow-up "
                         "SUBSCRIBE '#' and retained PUBLISH on the refused connection, accepting and rejecting authenticators; CONNACK bytes, closure, witness "
@@ -795,15 +829,25 @@ def c19(tier):
     rest = [s for s in scheds if s not in fixed]
     rng.shuffle(rest)
     chosen = fixed + rest[:(16 if not thorough else 200)]
-    runs = [(1, chosen)] + ([(2, chosen[:40])] if thorough else [])
-    for k, ss in runs:
-        p = core.run_harness(["keepalive", "-k", str(k), "-lanes", "48" if not thorough else "64"], stdin_obj=ss, timeout=900)
+    # a CONNECT with keep-alive 0 gets the default (KeepAlive!Effective(0) = 30 s): the active prefixes of the schedules on
+    # a finer grid (unit 0.4 s: every gap is far below K); thorough also the full grid of 3 s for a few schedules,
+    # silence of 78 s included
+    active = []
+    for s in fixed:
+        a = [x for x in s if x["expect"] == "up"]
+        if a and a not in active:
+            active.append(a)
+    runs = [(1, 1, 0, chosen)] + ([(2, 2, 0, chosen[:40])] if thorough else []) + [(30, 0, 400, active)]
+    if thorough:
+        runs.append((30, 0, 0, [s for s in fixed if len(s) <= 2][:6]))
+    for k, req, unitms, ss in runs:
+        p = core.run_harness(["keepalive", "-k", str(k), "-req", str(req), "-unitms", str(unitms), "-lanes", "48" if not thorough else "64"], stdin_obj=ss, timeout=900)
         if p.returncode != 0:
             raise Infra("keepalive failed: %s" % p.stderr[-2000:])
         res = json.loads(p.stdout.strip().splitlines()[-1])
         if res.get("counts", {}).get("infra"):
             raise Infra("keepalive harness: %s" % res.get("notes"))
-        v.cov["parts"]["K=%ds" % k] = {"schedules": res.get("evaluations", 0), "steps": res.get("steps", 0), "mismatching": res.get("nmismatch", 0),
+        v.cov["parts"]["K=%ds%s%s" % (k, " (CONNECT carries 0)" if req == 0 else "", " unit %d ms" % unitms if unitms else "")] = {"schedules": res.get("evaluations", 0), "steps": res.get("steps", 0), "mismatching": res.get("nmismatch", 0),
                                        "of_enumerated": len(scheds)}
         v.cov["evaluations"] += res.get("evaluations", 0)
         v.cov["traces_validated_against_impl"] += res.get("evaluations", 0)
@@ -1070,7 +1114,8 @@ def c12(tier):
     behs = client_behaviours(v, "SenderSpec", 4 if not thorough else 5, 2, "paths")
     client_replay(v, "C12", behs, "sender(paths)", {"C12", "C02"})
     # many requests outstanding: long random behaviours (TLC -simulate), the ack queues grow while their heads have moved
-    cfg = CLIENT_CFG % dict(spec="ManySpec", depth=120 if not thorough else 200, maxreq=60, dev="FALSE", emit="EmitMany", view="")
+    # (a behaviour is printed when it reaches the depth: requests + acknowledgements must be able to fill it, depth <= 2 * maxreq)
+    cfg = CLIENT_CFG % dict(spec="ManySpec", depth=120 if not thorough else 200, maxreq=60 if not thorough else 100, dev="FALSE", emit="EmitMany", view="")
     r = core.run_tlc("MCClient", cfg, workers=8, timeout=900, simulate=3 if not thorough else 30, depth=(120 if not thorough else 200) + 3, tlc_seed=core.seed())
     v.tlc("ManySpec(simulation)", r)
     behs = core.behaviours(r.lines)
